@@ -39,7 +39,7 @@ F18Clauses == {"NothingAfterTerminal", "NotifSeqOK", "TerminalFrozen", "HistAgre
 F19Clauses == {"NotifSeqOK", "TerminalFrozen", "EventuallyTerminal", "NoLateEffects:pub",
                "NothingAfterTerminal", "HistAgreesWithRecord", "DrainedD0", "DrainedD0:broker-unacked",
                "DrainedD1", "DrainedD1:broker-unacked", "DrainedD1:queued", "CarrierExists",
-               "SiblingsFrozen:rpc", "SiblingsFrozen:event", "SiblingsCancelled", "FanOutFailsOnce",
+               "SiblingsFrozen:rpc", "SiblingsFrozen:event", "SiblingsCancelled",
                "JoinAfterAll", "ViewsAgree:note-vs-record", "NotifiedOncePerChange", "RecordShape",
                "TriggerAckLast:pub", "TriggerAckLast:terminal-note", "TriggerAckLast:terminal-record"}
 F19Starts(s0, e) ==
@@ -117,5 +117,8 @@ Territory(s0, s1, e, f, active) ==
             (IF f.x # "" THEN "F24" \in TaintsOf(s1, f.x) ELSE AnyTaint(s1, "F24")) THEN "F24"
     ELSE IF "F19" \in active /\ f.clause \in F19Clauses /\
             (IF f.x # "" THEN "F19" \in TaintsOf(s1, f.x) ELSE AnyTaint(s1, "F19")) THEN "F19"
+    (* a sibling that FAILS late fails the fan-out a second time only once the execution has ended (the branch
+       metadata, and with it the mark that turns its reply into Task.Terminated, is deleted at the end) *)
+    ELSE IF "F19" \in active /\ f.clause = "FanOutFailsOnce" /\ f.x # "" /\ "F19" \in TaintsOf(s1, f.x) /\ KTerminal(s0, f.x) THEN "F19"
     ELSE ""
 =============================================================================
